@@ -90,7 +90,24 @@ impl Ctx<'_> {
 }
 
 pub fn spec_validate(d: &ArrayData) -> V {
+    NULLABILITY.with(|n| n.set(true));
     validate_node(d, "$".to_string())
+}
+
+/// Layout-only variant: does not judge field nullability (schema-level metadata that `ArrayData` validation
+/// does not claim to check); used to judge `ArrayData::try_new`/`validate_full` acceptance in C09.
+pub fn spec_validate_layout(d: &ArrayData) -> V {
+    NULLABILITY.with(|n| n.set(false));
+    let r = validate_node(d, "$".to_string());
+    NULLABILITY.with(|n| n.set(true));
+    r
+}
+
+thread_local! {
+    static NULLABILITY: std::cell::Cell<bool> = const { std::cell::Cell::new(true) };
+}
+fn check_nullability() -> bool {
+    NULLABILITY.with(|n| n.get())
 }
 
 fn validate_node(d: &ArrayData, path: String) -> V {
@@ -217,7 +234,7 @@ fn validate_node(d: &ArrayData, path: String) -> V {
             }
             let offs = check_offsets(&c, w, child.len())?;
             validate_node(child, format!("{}.{}", path, f.name()))?;
-            if !f.is_nullable() {
+            if !f.is_nullable() && check_nullability() {
                 for i in 0..len {
                     if c.valid(i) {
                         for j in offs[i]..offs[i + 1] {
@@ -265,7 +282,7 @@ fn validate_node(d: &ArrayData, path: String) -> V {
                 if o < 0 || s < 0 || o + s > child.len() as i128 {
                     return c.err(format!("list-view slot {}: offset {} size {} outside child of length {}", i, o, s, child.len()));
                 }
-                if !f.is_nullable() && c.valid(i) {
+                if !f.is_nullable() && check_nullability() && c.valid(i) {
                     for j in o as usize..(o + s) as usize {
                         if !slot_valid(child, j) {
                             return c.err(format!("non-nullable child has a null at child slot {}", j));
@@ -290,7 +307,7 @@ fn validate_node(d: &ArrayData, path: String) -> V {
                 return c.err(format!("child length {} < (offset {} + len {}) * size {}", child.len(), off, len, n));
             }
             validate_node(child, format!("{}.{}", path, f.name()))?;
-            if !f.is_nullable() {
+            if !f.is_nullable() && check_nullability() {
                 for i in 0..len {
                     if c.valid(i) {
                         for j in (off + i) * *n as usize..(off + i + 1) * *n as usize {
@@ -313,7 +330,7 @@ fn validate_node(d: &ArrayData, path: String) -> V {
                     return c.err(format!("child {} length {} < offset {} + len {}", f.name(), child.len(), off, len));
                 }
                 validate_node(child, format!("{}.{}", path, f.name()))?;
-                if !f.is_nullable() {
+                if !f.is_nullable() && check_nullability() {
                     for i in 0..len {
                         if c.valid(i) && !slot_valid(child, off + i) {
                             return c.err(format!("non-nullable child {} has a null at slot {}", f.name(), i));
